@@ -38,11 +38,13 @@ type c15WS struct {
 	Vars    []c15Var
 	UseFile string
 	Cyclic  map[string]bool // classes whose ancestor graph contains a cycle
+	// MultiDecl: field names declared by more than one class (a child re-declaring a parent's field)
+	MultiDecl map[string]bool
 }
 
 func c15Gen(r *Rng) c15WS {
 	n := r.Range(2, 10)
-	w := c15WS{Files: map[string]string{}, Classes: map[string]*c15Class{}, Cyclic: map[string]bool{}, UseFile: "use.lua"}
+	w := c15WS{Files: map[string]string{}, Classes: map[string]*c15Class{}, Cyclic: map[string]bool{}, MultiDecl: map[string]bool{}, UseFile: "use.lua"}
 	var names []string
 	for i := 0; i < n; i++ {
 		names = append(names, fmt.Sprintf("Kls%d", i))
@@ -85,6 +87,22 @@ func c15Gen(r *Rng) c15WS {
 		}
 		for k := 0; k < r.Range(0, 3); k++ {
 			c.Fields = append(c.Fields, fmt.Sprintf("%s_f%d", strings.ToLower(nm), k))
+		}
+		// a child may declare a field of one of its parents again (an override)
+		if len(c.Parents) > 0 && r.Chance(1, 3) {
+			if pc := w.Classes[c.Parents[r.Intn(len(c.Parents))]]; pc != nil && len(pc.Fields) > 0 {
+				of := pc.Fields[r.Intn(len(pc.Fields))]
+				dup := false
+				for _, x := range c.Fields {
+					if x == of {
+						dup = true
+					}
+				}
+				if !dup {
+					c.Fields = append(c.Fields, of)
+					w.MultiDecl[of] = true
+				}
+			}
 		}
 		c.HasVar = r.Chance(2, 3)
 		if c.HasVar && r.Bool() {
@@ -343,6 +361,10 @@ func runC15(c *Ctx) {
 			if u.field == "" {
 				continue // cyclic alias: only liveness
 			}
+			if w.MultiDecl[u.field] {
+				c.Count("dont_care_definition_of_a_field_declared_by_several_classes", 1)
+				continue
+			}
 			fields, _ := w.members(u.v.Class)
 			decl := w.Classes[fields[u.field]]
 			fp := decl.FieldPos[u.field]
@@ -386,6 +408,9 @@ func runC15(c *Ctx) {
 			fields, extra := w.members(v.Class)
 			labels := map[string]bool{}
 			for _, it := range items {
+				if labels[it.Label] {
+					c.Report("member-completion|"+v.Via+"|label-offered-twice", fmt.Sprintf("completion after %s%s. (type %s) offers %s twice", v.Name, v.Access, v.TypeStr, it.Label), witness(nil))
+				}
 				labels[it.Label] = true
 			}
 			c.Distinct(fmt.Sprint(files, v.Name))
@@ -439,7 +464,7 @@ func runC15(c *Ctx) {
 			c.Sample(map[string]interface{}{"files": files})
 		}
 	})
-	c.Finish("generated class hierarchies (2-10 classes, up to 3 parents each, diamonds, every 4th graph with cycles and cyclic aliases, classes spread over 1-3 files, every third graph with one class declared in two parts in two files, class table "+
+	c.Finish("generated class hierarchies (2-10 classes, up to 3 parents each, diamonds, every 4th graph with cycles and cyclic aliases, classes spread over 1-3 files, every third graph with one class declared in two parts in two files, children that declare a parent's field again, class table "+
 		"variables with methods / assigned members) and variables typed by ---@type through a class, an alias, an alias of an alias, T[], table<K,V>, an alias of an array, an alias of a table<K,V> and an alias of that alias; "+
 		"flow (i): go-to-definition on v.member for every expected field must lead to its ---@field name; flow (ii): the document is edited to end in `v.` and completion with "+
 		"trigger '.' must return exactly the transitive field set plus the documented assigned members (superset for cyclic graphs; cyclic aliases only have to return). "+
